@@ -80,6 +80,9 @@ Failing(c, o, om) ==
   \cup (IF ToSet(o.call) = Present(c.reg) THEN {} ELSE {"call"})
   \cup (IF ToSet(o.intro) = PresentPairs(c.reg) THEN {} ELSE {"introspect"})
   \cup (IF KidsOk(c.reg, o) THEN {} ELSE {"children"})
+  \* an operation that fails (refused registration, failed removal) leaves the tree as it was: no node appears or
+  \* disappears in any child list (`last` = the child lists after the previous step; none before the first)
+  \cup (IF o.res \in {"refused", "err"} /\ ToSet(o.kids) # ToSet(last) THEN {"ghost-children"} ELSE {})
   \cup (IF o.hung = 0 THEN {} ELSE {"hung"})
   \cup (IF ListingOk(c.reg, o) THEN {} ELSE {"listing"})
   \cup (IF om = c.mirror THEN {} ELSE {"mirror"})
@@ -148,7 +151,8 @@ Step ==
              /\ mflag' = (mflag \/ bad)
              /\ k' = k + 1
              /\ tr' = Tail(tr)
-             /\ UNCHANGED <<hist, last, id, st>>
+             /\ last' = o.kids
+             /\ UNCHANGED <<hist, id, st>>
 
 TNext == st = "run" /\ (Step \/ Finish)
 =============================================================================
